@@ -116,6 +116,10 @@ pub struct AbortCase {
     /// after an earlier read_card, so the call's first write meets a dead connection
     #[serde(default)]
     pub prior_fault: Option<usize>,
+    /// with `prior_fault` = 98: the reconnect's handshake packets are this many ms late each, and the abort comes this many
+    /// ms after the acknowledgement - every wait inside the time-out, their sum beyond it
+    #[serde(default)]
+    pub slow: Option<(u64, u64)>,
     /// another transaction is open on the same client while the aborted call runs (max_transactions = 2)
     #[serde(default)]
     pub others_open: bool,
@@ -203,6 +207,12 @@ pub fn check_abort(c: &AbortCase) -> CheckResult {
         }
     };
     sc.plan = vec![PlanEntry { kind: c.site, occ: Some(abort_occ), from_start: false, directive: Directive { outcome: if let Some(x) = c.extra { Outcome::AbortExtended(c.code, x) } else if let Some(rc) = c.with_receipt { Outcome::AbortWithReceipt(c.code, rc) } else if c.after_status { Outcome::AbortAfterStatus(c.code) } else { Outcome::Abort(c.code) }, ..Default::default() } }];
+    if let (true, Some((dh, dr))) = (idle && !matches!(c.site, Kind::SystemInfo | Kind::Registration), c.slow) {
+        sc.plan[0].directive.delay_ms = Some((1, dr));
+        for k in [Kind::Registration, Kind::SystemInfo] {
+            sc.plan.push(PlanEntry { kind: k, occ: Some(0), from_start: false, directive: Directive { delay_ms: Some((98, dh)), ..Default::default() } });
+        }
+    }
     if idle {
         sc.ops.insert(0, Op::ReadCard);
         sc.plan.push(PlanEntry { kind: Kind::ReadCard, occ: Some(0), from_start: false, directive: Directive { fault: Some((FaultKind::Close, 99)), ..Default::default() } });
@@ -292,7 +302,7 @@ pub fn run(tier: Tier) -> i32 {
                 // the abort may also come behind a print line and a status information (declined payment)
                 let status_site = matches!(site, Kind::Reservation | Kind::PartialReversal | Kind::PreAuthReversal | Kind::EndOfDay);
                 if status_site {
-                    let c2 = AbortCase { op: op.to_string(), site, code: code as u8, intermediates: inter, after_status: true, with_receipt: None, extra: None, prior_fault: None, others_open: false, dangling, terminal_id_differs: tid };
+                    let c2 = AbortCase { op: op.to_string(), site, code: code as u8, intermediates: inter, after_status: true, with_receipt: None, extra: None, slow: None, prior_fault: None, others_open: false, dangling, terminal_id_differs: tid };
                     st.case(true, fnv(&serde_json::to_vec(&c2).unwrap()));
                     st.class(&format!("{op}/{site:?}:after-status-information"));
                     ctx.record(check_abort(&c2), st);
@@ -300,7 +310,7 @@ pub fn run(tier: Tier) -> i32 {
                 // the reversal / end-of-day family may put a receipt-number field into the abort packet itself
                 if matches!(site, Kind::PendingQuery | Kind::PartialReversal | Kind::PreAuthReversal | Kind::EndOfDay) && inter == 0 {
                     for rc in [0xffffu64, 4711] {
-                        let c3 = AbortCase { op: op.to_string(), site, code: code as u8, intermediates: 0, after_status: false, with_receipt: Some(rc), extra: None, prior_fault: None, others_open: false, dangling, terminal_id_differs: tid };
+                        let c3 = AbortCase { op: op.to_string(), site, code: code as u8, intermediates: 0, after_status: false, with_receipt: Some(rc), extra: None, slow: None, prior_fault: None, others_open: false, dangling, terminal_id_differs: tid };
                         st.case(true, fnv(&serde_json::to_vec(&c3).unwrap()));
                         st.class(&format!("{op}/{site:?}:abort-with-receipt-field"));
                         ctx.record(check_abort(&c3), st);
@@ -310,16 +320,28 @@ pub fn run(tier: Tier) -> i32 {
                 // code / text, a receipt number (the code is the first byte in every form)
                 if inter <= 1 {
                     for x in 0..crate::sim::ABORT_EXTRAS.len() {
-                        let c6 = AbortCase { op: op.to_string(), site, code: code as u8, intermediates: inter, after_status: false, with_receipt: None, extra: Some(x), prior_fault: None, others_open: false, dangling, terminal_id_differs: tid };
+                        let c6 = AbortCase { op: op.to_string(), site, code: code as u8, intermediates: inter, after_status: false, with_receipt: None, extra: Some(x), slow: None, prior_fault: None, others_open: false, dangling, terminal_id_differs: tid };
                         st.case(true, fnv(&serde_json::to_vec(&c6).unwrap()));
                         st.class(&format!("{op}/{site:?}:abort-with-further-data-objects"));
                         ctx.record(check_abort(&c6), st);
                     }
                 }
+                // the call has to reconnect first (the terminal dropped the idle connection), the handshake is slow and so is the
+                // abort: each wait inside the time-out of the exchange, their sum beyond it
+                if inter == 0 && !matches!(site, Kind::SystemInfo | Kind::Registration) {
+                    let slow = if site == Kind::ReadCard { (4_000u64, 12_000u64) } else if code % 2 == 0 { (25_000, 25_000) } else { (5_000, 55_000) };
+                    let c7 = AbortCase { op: op.to_string(), site, code: code as u8, intermediates: 0, after_status: false, with_receipt: None, extra: None, slow: Some(slow), prior_fault: Some(98), others_open: false, dangling, terminal_id_differs: tid };
+                    st.case(true, fnv(&serde_json::to_vec(&c7).unwrap()));
+                    st.class(&format!("{op}/{site:?}:slow-reconnect-then-slow-abort"));
+                    ctx.record(check_abort(&c7), st);
+                    if NOT_REACHED.with(|n| n.get()) {
+                        st.class(&format!("{op}/{site:?}:slow-reconnect-then-slow-abort:not-reached"));
+                    }
+                }
                 // the same abort while another transaction is open on the client (own exchanges of begin / commit / cancel)
                 if inter <= 1 && matches!((op, site), ("begin", Kind::Reservation) | ("commit", Kind::PartialReversal) | ("cancel", Kind::PreAuthReversal)) && !dangling {
                     for after_status in [false, true] {
-                        let c5 = AbortCase { op: op.to_string(), site, code: code as u8, intermediates: inter, after_status, with_receipt: None, extra: None, prior_fault: None, others_open: true, dangling, terminal_id_differs: tid };
+                        let c5 = AbortCase { op: op.to_string(), site, code: code as u8, intermediates: inter, after_status, with_receipt: None, extra: None, slow: None, prior_fault: None, others_open: true, dangling, terminal_id_differs: tid };
                         st.case(true, fnv(&serde_json::to_vec(&c5).unwrap()));
                         st.class(&format!("{op}/{site:?}:another-transaction-open"));
                         ctx.record(check_abort(&c5), st);
@@ -336,7 +358,7 @@ pub fn run(tier: Tier) -> i32 {
                             if after_status && !status_site {
                                 continue;
                             }
-                            let c4 = AbortCase { op: op.to_string(), site, code: code as u8, intermediates: inter, after_status, with_receipt: None, extra: None, prior_fault: Some(pf), others_open: false, dangling, terminal_id_differs: tid };
+                            let c4 = AbortCase { op: op.to_string(), site, code: code as u8, intermediates: inter, after_status, with_receipt: None, extra: None, slow: None, prior_fault: Some(pf), others_open: false, dangling, terminal_id_differs: tid };
                             st.case(true, fnv(&serde_json::to_vec(&c4).unwrap()));
                             st.class(&format!("{op}/{site:?}:abort-of-the-re-sent-request"));
                             ctx.record(check_abort(&c4), st);
@@ -346,7 +368,7 @@ pub fn run(tier: Tier) -> i32 {
                         }
                     }
                 }
-                let c = AbortCase { op: op.to_string(), site, code: code as u8, intermediates: inter, after_status: false, with_receipt: None, extra: None, prior_fault: None, others_open: false, dangling, terminal_id_differs: tid };
+                let c = AbortCase { op: op.to_string(), site, code: code as u8, intermediates: inter, after_status: false, with_receipt: None, extra: None, slow: None, prior_fault: None, others_open: false, dangling, terminal_id_differs: tid };
                 st.case(true, fnv(&serde_json::to_vec(&c).unwrap()));
                 st.class(&format!("{op}/{site:?}"));
                 if code == 0x64 && inter == 1 {
@@ -364,7 +386,7 @@ pub fn run(tier: Tier) -> i32 {
             let strat = (0usize..SITES.len(), any::<u8>(), 0usize..6, any::<bool>());
             ctx.proptest(seed, 20_000, &strat, st, |(si, code, inter, dang), st| {
                 let (op, site, dangling, tid) = SITES[*si];
-                let c = AbortCase { op: op.to_string(), site, code: *code, intermediates: *inter, after_status: *inter % 2 == 1, with_receipt: if *inter % 3 == 2 { Some(*code as u64 * 7 % 9999) } else { None }, extra: None, prior_fault: match *inter { 4 => Some(0), 5 => Some(99), _ => None }, others_open: *inter == 3 && matches!(site, Kind::PartialReversal | Kind::PreAuthReversal | Kind::Reservation), dangling: dangling || *dang, terminal_id_differs: tid };
+                let c = AbortCase { op: op.to_string(), site, code: *code, intermediates: *inter, after_status: *inter % 2 == 1, with_receipt: if *inter % 3 == 2 { Some(*code as u64 * 7 % 9999) } else { None }, extra: None, slow: None, prior_fault: match *inter { 4 => Some(0), 5 => Some(99), _ => None }, others_open: *inter == 3 && matches!(site, Kind::PartialReversal | Kind::PreAuthReversal | Kind::Reservation), dangling: dangling || *dang, terminal_id_differs: tid };
                 st.case(true, fnv(&serde_json::to_vec(&c).unwrap()));
                 st.class("random");
                 check_abort(&c)
@@ -372,7 +394,7 @@ pub fn run(tier: Tier) -> i32 {
         });
         stats.merge(s);
     }
-    stats.exhaustive_parts = vec!["all 256 result codes x 16 (operation, exchange) sites x abort directly after the ack / after 1 and 3 intermediate packets / behind a print line and a status information carrying a receipt number / as the answer to a request re-sent after the first attempt lost its connection (instead of the acknowledgement, of the first reply, of the completion) / while another transaction is open on the client".into()];
+    stats.exhaustive_parts = vec!["all 256 result codes x 16 (operation, exchange) sites x abort directly after the ack / after 1 and 3 intermediate packets / behind a print line and a status information carrying a receipt number / as the answer to a request re-sent after the first attempt lost its connection (instead of the acknowledgement, of the first reply, of the completion) / while another transaction is open on the client / as a slow answer (12..55 s) on a connection re-established inside the call by a slow handshake (each wait inside the time-out, the sum beyond it) / with 11 forms of further data objects behind the code (untagged currency of ZVT 2.2.9, tagged currency, TLV container with extended error code of 1 / 2 / 8 bytes and text, empty container, receipt number + currency)".into()];
     ctx.finish(
         stats,
         "enumeration: every result code 0..255 x every exchange in which the terminal may abort (read_card; begin: Reservation; commit: PartialReversal, pending query, dangling reversal, end-of-day; cancel: PreAuthReversal, pending query, end-of-day; configure: system info, SetTerminalId, Initialization, pending query, dangling reversal, end-of-day) x position of the abort in the reply script. Oracle: the call returns Err whose chain contains ZVTError::Aborted(c), or whose text contains the code (hex or decimal), or - for read_card - the specification's message for c (own copy of the chapter-10 table); documented translations checked positively (read_card+6c => NoCardPresented, Reservation+fc => NeedsPinEntry, end-of-day+a0 => Ok). For the pending query only codes != b8 count as aborts. non-trivial = every case; distinct by (op, site, code, position)",
